@@ -90,6 +90,8 @@ func WorldPathShape(w b6.World, pf b6.PhysicalFeature) (shape PathShape, panicke
 		n := pf.GeometryLen()
 		shape.N = n
 		var firstRef, lastRef b6.FeatureID
+		nref := 0
+		defer func() { shape.Mixed = nref > 0 && nref < n }()
 		for i := 0; i < n; i++ {
 			ref := b6.FeatureIDInvalid
 			if r := pf.Reference(i); r != nil {
@@ -102,6 +104,7 @@ func WorldPathShape(w b6.World, pf b6.PhysicalFeature) (shape PathShape, panicke
 				lastRef = ref
 			}
 			if ref.IsValid() {
+				nref++
 				ll, err := w.FindLocationByID(ref)
 				if err != nil {
 					shape.Unresolved = append(shape.Unresolved, ref.String())
